@@ -168,20 +168,30 @@ def judge(clauses, assumptions, case, res, witness=None, z3_timeout_ms=None):
         if good and clauses and is_model(clauses, assumptions, s):
             certified = True
     if res.solutions is not None:
-        seen = set()
+        seen = {}
         for i, s in enumerate(res.solutions):
             key = tuple(sorted(s.items())) if isinstance(s, dict) else repr(s)
             if key in seen:
                 viol.append(("C01/solve_sat/ensures:solutions-pairwise-distinct",
-                             f"solutions[{i}]={_short(s, 160)} repeated ({len(res.solutions)} entries, "
+                             f"solutions[{i}] == solutions[{seen[key]}] == {_short(s, 160)} ({len(res.solutions)} entries, "
                              f"{len({tuple(sorted(t.items())) if isinstance(t, dict) else repr(t) for t in res.solutions})} distinct)"))
                 break
-            seen.add(key)
+            seen[key] = i
         if case.get("solution_limit") and len(res.solutions) > case["solution_limit"]:
             viol.append(("C01/solve_sat/ensures:solutions-pairwise-distinct", f"{len(res.solutions)} solutions for limit {case['solution_limit']}"))
         if case.get("n_models") is not None and len(res.solutions) > case["n_models"]:
             viol.append(("C01/solve_sat/ensures:solutions-pairwise-distinct",
-                         f"{len(res.solutions)} solutions returned, the formula has {case['n_models']} models (counted by brute force)"))
+                         f"{len(res.solutions)} solutions returned, the formula has {case['n_models']} models (counted by construction / brute force)"))
+    # enumeration with a known model count: OPTIMAL with fewer than min(solution_limit, count) solutions claims that the
+    # formula + the returned models has no further model although one exists (the verdict side of the enumeration: C02)
+    if (case.get("n_models") is not None and case.get("solution_limit", 1) > 1 and status == Status.OPTIMAL
+            and n_bad == 0 and res.solutions is not None and len(set(map(repr, res.solutions))) == len(res.solutions)):
+        want = min(case["solution_limit"], case["n_models"])
+        if len(res.solutions) < want:
+            viol.append(("C02/solve_sat/ensures:enumeration-stops-only-when-exhausted",
+                         f"OPTIMAL with {len(res.solutions)} pairwise distinct models for solution_limit {case['solution_limit']}; the formula "
+                         f"has {case['n_models']} models (counted by construction / brute force): a model different from every "
+                         "returned one exists and no budget is exhausted"))
     # oracle: does a model exist?
     if not clauses:
         sat = True
@@ -378,6 +388,15 @@ ROUND2_RULE = (
     "pop clause, overwrite literal, flip / swap variables, refill with another formula, change assumptions, starve budgets), "
     "each answer judged against brute force on the input as it is at that call, and compared with the answer of a process "
     "without call history (forked per call; a sample in newly started interpreters); ")
+
+ROUND3_RULE = (
+    "enumeration structure: formulas glued from variable-disjoint parts (free variables; late-implied backbone gadgets "
+    "(h or y)(h or not y), four-clause ternary gadgets, implication chains, shared helpers, backbone pairs; equivalence classes, "
+    "at-most-one / exactly-one groups; small random cores) with 2049..20000 models, the count known by construction (product of "
+    "per-part brute-force counts), each under the numberings identity / reversed / backbone-first / backbone-last / grouped / "
+    "grouped-reversed / aux-first / interleaved / random permutations x polarity flips (none, all, backbone only, random) x "
+    "luby_factor 1..100 x clause / literal shuffles, all models requested (or a limit below the count, or one free variable "
+    "assumed): exactly min(solution_limit, count) solutions, pairwise distinct, each satisfying every clause; ")
 
 # ------------------------------------------------------------------ round 2: size ladder with certifying oracles
 # Every generator returns (clauses, witness, expect): witness = list of signed literals (a total planted model) or None;
@@ -1192,6 +1211,96 @@ def ladder_cases(seed, quick):
     return out
 
 
+def enum_random_parts(rng, lo, hi):
+    """a random composition: >= 2 late-implied backbone variables from random gadget kinds, optional groups and a small
+    random core, padded with free variables so that the exact model count lands in [lo, hi] (hi >= 2 * lo)"""
+    while True:
+        parts = []
+        n_bb = 0
+        while n_bb < 2 or (n_bb < 5 and rng.random() < 0.35):
+            kind = rng.choice(["bb", "bb", "bb3", "bbchain", "bbshared", "bbpair"])
+            p = {"bb": ["bb", rng.randint(1, 3)], "bb3": ["bb3", 1], "bbchain": ["bbchain", rng.randint(2, 5)],
+                 "bbshared": ["bbshared", rng.randint(2, 3)], "bbpair": ["bbpair"]}[kind]
+            parts.append(p)
+            n_bb += _enum_part(p)[1].count("bb")
+        for _ in range(rng.randint(0, 2)):
+            parts.append(rng.choice([["eq", rng.randint(2, 4)], ["amo", rng.randint(2, 5)], ["exo", rng.randint(2, 5)]]))
+        if rng.random() < 0.6:
+            n = rng.randint(4, 8)
+            parts.append(["core", n, rng.randint(n, 2 * n), rng.randrange(10 ** 6)])
+        P = enum_struct_count(parts)
+        k = 0
+        while P * 2 ** k < lo:
+            k += 1
+        if P * 2 ** k > hi or k > 12 or k < 1:
+            continue
+        parts.append(["free", k, rng.choice(["taut2", "taut3"]) if k >= 2 else "taut2"])
+        rng.shuffle(parts)
+        return parts
+
+
+def enum_struct_cases(seed, quick):
+    """enumeration-structure family: (formula with a model count known by construction) x (variable numbering) x (polarity)
+    x (restart frequency); all models requested (or a limit below the count); reduce_db runs during the enumeration"""
+    rng = random.Random(f"enum-struct-{seed}")
+    out = []
+    perms = [f"perm{i}" for i in range(1 if quick else 4)]
+    numberings = list(ENUM_NUMBERINGS) + perms
+
+    def add(parts, numbering, polarity, lf, shuffle=None, limit=None, assume_free=False):
+        count = enum_struct_count(parts)
+        params = {"parts": parts, "numbering": numbering, "polarity": polarity}
+        if shuffle is not None:
+            params["shuffle"] = shuffle
+        c = {"gen": ["enum_struct", params], "assumptions": [], "solution_limit": limit or count + 1000, "luby_factor": lf,
+             "max_conflicts": 10 ** 7, "max_restarts": 10 ** 7, "n_models": count, "family": "enum-struct", "small": False,
+             "timeout_s": 900, "cost": (min(count, limit or count) / 2500) ** 2}
+        if assume_free:  # one free variable fixed by an assumption: exactly half of the models remain
+            frees = enum_struct_class_numbers(parts, numbering)["free"]
+            v = frees[len(frees) // 2]
+            c["assumptions"] = [v if len(out) % 2 else -v]
+            c["n_models"] = count // 2
+            c["solution_limit"] = limit or count // 2 + 1000
+            c["cost"] = (min(count // 2, limit or count) / 2500) ** 2
+        out.append(c)
+
+    fixed = [[["free", 7], ["bb", 2], ["amo", 4]]]  # 128 * 4 * 5 = 2560
+    if not quick:
+        fixed += [[["free", 10], ["bb", 2]], [["free", 8], ["bb", 4]], [["free", 7], ["bbchain", 3], ["bb3", 1], ["bbshared", 2]],
+                  [["core", 6, 9, 0], ["free", 5], ["bbpair"], ["bb", 1], ["eq", 3], ["exo", 3]]]
+    small = fixed + [enum_random_parts(rng, 2049, 2800 if quick else 4100) for _ in range(1 if quick else 7)]
+    lfs = (100, 1, 3, 10, 2)
+    for fi, parts in enumerate(small):
+        for ni, nm in enumerate(numberings):
+            for pi, pol in enumerate(("pos",) if quick else ("pos", "neg", "bbneg", f"rand{fi}")):
+                add(parts, nm, pol, lfs[(fi + ni + pi) % (2 if quick else 5)], shuffle=None if (ni + pi) % 3 else fi * 100 + ni)
+    # polarity flips in the quick tier: a rotating sample instead of the full product
+    if quick:
+        for fi, parts in enumerate(small):
+            for j, (nm, pol) in enumerate([("grouped", "neg"), ("grouped-reversed", "bbneg"), ("perm0", f"rand{fi}")][: 2 if fi else 3]):
+                add(parts, nm, pol, lfs[j % 2], shuffle=j or None)
+    else:
+        # limits below the model count, assumptions on a free variable, mid-size and large counts
+        mid = [enum_random_parts(rng, 4200, 8400) for _ in range(4)]
+        for fi, parts in enumerate(mid):
+            for ni, nm in enumerate(numberings):
+                pol = ("pos", "neg", "bbneg", f"rand{fi}")[(fi + ni) % 4] if ni % 2 else "pos"
+                add(parts, nm, pol, lfs[(fi + ni) % 5], assume_free=ni % 3 == 0, limit=None if ni % 3 != 1 else 2600)
+        for fi, parts in enumerate([enum_random_parts(rng, 9000, 20000) for _ in range(2)]):
+            for ni, nm in enumerate(("grouped", "backbone-last", "reversed", "interleaved", "perm0", "perm1")):
+                add(parts, nm, "pos" if ni % 2 == 0 else f"rand{ni}", lfs[ni % 5], limit=None if ni % 2 == 0 else 3000)
+    return out
+
+
+def enum_struct_class_numbers(parts, numbering):
+    """variable numbers by class under a numbering"""
+    classes = [c for p in parts for c in _enum_part(p)[1]]
+    out = {}
+    for pos, ci in enumerate(_enum_order(classes, numbering)):
+        out.setdefault(classes[ci], []).append(pos + 1)
+    return out
+
+
 def budget_ladder_cases(seed, quick):
     """every conflict budget 0..K and restart budget 0..3 on formulas that need tens to hundreds of conflicts: the budget
     checks are crossed at every possible point (any status allowed; models must be models; INFEASIBLE only if unsat)"""
@@ -1326,7 +1435,8 @@ def run_property(ctx, prefix):
     fresh_viol = compare_fresh(sel, 8 if ctx.quick else 64)
     del fresh_items
     cases = build_cases(ctx.seed, ctx.quick)
-    big = ladder_cases(ctx.seed, ctx.quick)
+    enum_cases = enum_struct_cases(ctx.seed, ctx.quick)
+    big = ladder_cases(ctx.seed, ctx.quick) + enum_cases
     budget = budget_ladder_cases(ctx.seed, ctx.quick)
     small = cases + budget
     # expensive cases first, one per task; cheap ones in chunks of 40
@@ -1375,13 +1485,24 @@ def run_property(ctx, prefix):
     ctx.count(n, nontriv, samples or [cases[0]])
     ctx.scope("solve_sat cases by family", **fam)
     ctx.scope("size ladder (planted witness / certified-unsat siblings)", sizes=list(LADDER if not ctx.quick else [s for s in LADDER if s <= 1000]),
-              families=sorted({c["family"] for c in big}), cases=len(big),
+              families=sorted({c["family"] for c in big if c["family"] != "enum-struct"}), cases=len(big) - len(enum_cases),
               oracle="planted model checked by direct evaluation; every returned assignment evaluated clause by clause; "
                      "unsat siblings and INFEASIBLE claims on unplanted formulas certified by z3 (time-limited)",
               oracle_gave_up=undecided)
     ctx.scope("history mode", sequences=len(hist), calls=sum(len(c["history"]["steps"]) for c in hist),
               compared_with_fresh_process=len(sel), kinds=["enumerate", "options", "edits", "repeat", "replace"])
     ctx.scope("budget ladder", cases=len(budget))
+    ctx.scope("enumeration structure (model count known by construction)", cases=len(enum_cases),
+              formulas=len({repr(c["gen"][1]["parts"]) for c in enum_cases}),
+              model_counts=sorted({c["n_models"] for c in enum_cases}),
+              numberings=sorted({c["gen"][1]["numbering"] for c in enum_cases}),
+              polarities=sorted({c["gen"][1]["polarity"] for c in enum_cases}),
+              luby_factors=sorted({c["luby_factor"] for c in enum_cases}),
+              with_limit_below_count=sum(1 for c in enum_cases if c["solution_limit"] < c["n_models"]),
+              with_assumption=sum(1 for c in enum_cases if c["assumptions"]),
+              oracle="count = product over variable-disjoint parts of the brute-force count of each part (<= 12 variables, "
+                     "cross-checked against its closed form); returned solutions: exactly min(solution_limit, count), pairwise "
+                     "distinct, each evaluated clause by clause")
     ctx.notes["exhaustive_note"] = ("thorough tier enumerates every CNF over <=3 variables with <=3 clauses of <=3 literals "
                                     "x assumptions x solution_limit x luby_factor; quick runs a seeded slice")
     ctx.exhaustive = not ctx.quick
